@@ -821,6 +821,21 @@ def run_world(spec: dict, sandbox: str, want_log: bool = False) -> dict:
 
 
 # ---------------------------------------------------------------------- shrinking (shared)
+def count_empty_schemas(x: Any, key: Any = None) -> int:
+    n = 0
+    if isinstance(x, dict):
+        if not x and key in ("schema", "items", "additionalProperties", "__member__", "__prop__"):
+            n += 1
+        for k, v in x.items():
+            if k == "properties" and isinstance(v, dict):
+                n += sum(count_empty_schemas(pv, "__prop__") for pv in v.values())
+            else:
+                n += count_empty_schemas(v, k)
+    elif isinstance(x, list):
+        n += sum(count_empty_schemas(v, "__member__" if key in ("oneOf", "anyOf", "allOf", "prefixItems") else None) for v in x)
+    return n
+
+
 def spec_size(spec: dict) -> dict:
     return {"doc_nodes": docgen.count_nodes(spec["doc"]), "sessions": len(spec["sessions"]),
             "calls": sum(len(g["calls"]) for s in spec["sessions"] for g in s["groups"])}
@@ -873,7 +888,12 @@ def shrink_candidates(spec: dict) -> list[dict]:
     def protect(p: tuple) -> bool:
         return p in (("info",), ("info", "title"), ("info", "version"), ("openapi",), ("paths",))
 
-    for d in driver.tree_candidates(spec["doc"], limit=220, protect=protect):
+    # never let delta debugging turn a typed schema into the empty schema {} ("anything"): the shrunk document would
+    # describe another API, and the generator treats untyped schemas specially (no parsing, Any)
+    n_empty = count_empty_schemas(spec["doc"])
+    for d in driver.tree_candidates(spec["doc"], limit=260, protect=protect):
+        if count_empty_schemas(d) > n_empty:
+            continue
         s = copy.deepcopy(spec)
         s["doc"] = d
         out.append(s)
